@@ -696,6 +696,13 @@ func (m *Dense) Kronecker(a, b Matrix) {
 	bU, _ := untransposeExtract(b)
 	m.checkOverlapMatrix(aU)
 	m.checkOverlapMatrix(bU)
+	if m == aU || m == bU {
+		// The other factor is 1×1. The blocks are views of the
+		// receiver, so build the product in a workspace.
+		var restore func()
+		m, restore = m.isolatedWorkspace(m)
+		defer restore()
+	}
 	for i := 0; i < ra; i++ {
 		for j := 0; j < ca; j++ {
 			m.slice(i*rb, (i+1)*rb, j*cb, (j+1)*cb).Scale(a.At(i, j), b)
